@@ -2,6 +2,7 @@ package main
 
 import (
 	"fmt"
+	"math"
 	"strings"
 	"sync"
 	"time"
@@ -115,6 +116,22 @@ func fragmentations(r *rng.R, k int, thorough bool) map[string][]int {
 	return out
 }
 
+// c06Budget is the CPU a call may consume before it counts as not returning: 10 s, plus 10 s for
+// every garbage collection the scripted source forces during the call (the collector's idle
+// workers spin while other processes hold the cores; 1.8 s per forced collection was observed on
+// a machine running four sweeps at once).
+func c06Budget(it *Item) time.Duration {
+	b := 10 * time.Second
+	if it.Op.Src != nil {
+		for _, st := range it.Op.Src.Steps {
+			if st.GC {
+				b += 10 * time.Second
+			}
+		}
+	}
+	return b
+}
+
 func stepsOf(sizes []int) []plan.Step {
 	st := make([]plan.Step, len(sizes))
 	for i, n := range sizes {
@@ -140,7 +157,7 @@ func checkC06(e *Env) {
 	smp := newSamples(8)
 
 	// the CPU budget turns a consumer that retries a failed source forever into a verdict
-	stats := e.RunStream(StreamOpts{Drv: drv, CPUBudget: func(*Item) time.Duration { return 10 * time.Second }, Window: 64}, func(emit func(*Item)) {
+	stats := e.RunStream(StreamOpts{Drv: drv, CPUBudget: c06Budget, Window: 64}, func(emit func(*Item)) {
 		r := rng.New(e.Seed, "C06")
 		langRot := 0
 		langsFor := func() []int {
@@ -241,8 +258,12 @@ func checkC06(e *Env) {
 						if rep < 2 && len(sizes) > 1 {
 							// a slow source: a garbage collection with finalizers completes before
 							// every fragment after the first
+							// (at most nine of them: under heavy machine load a forced collection costs
+							// seconds of CPU in spinning workers, and the CPU budget below grows with
+							// their number)
 							st := stepsOf(sizes)
-							for i := 1; i < len(st); i++ {
+							every := (len(st) + 7) / 8
+							for i := 1; i < len(st); i += every {
 								st[i].GC = true
 							}
 							send(c06exp{n: n, need: need, lang: lang, data: data, steps: st, k: -1, frag: fname + "/collection-between-fragments"})
@@ -450,9 +471,10 @@ func checkC06(e *Env) {
 		fatalInconclusive("C06: failure matrix has %d of %d cells", matrix.Len(), wantMatrix)
 	}
 	e.WriteEvidence("fault_enumeration", map[string]any{
-		"evaluations":            stats.Ops,
-		"distinct_nontrivial":    dist.Len(),
-		"calls_inside_histories": histCalls,
+		"evaluations": stats.Ops,
+		"max_fraction_of_cpu_budget_used_by_a_call": math.Round(stats.MaxCPUBudgetFrac*1000) / 1000,
+		"distinct_nontrivial":                       dist.Len(),
+		"calls_inside_histories":                    histCalls,
 		"concurrent_calls_on_one_shared_source_judged_by_their_own_goroutine's_reads": concCalls,
 		"calls_on_a_source_that_fails_transiently_and_stays_installed":                transientCalls,
 		"rule":                          "a case is a scripted randomness source (bytes, per-read delivery sizes, failure point, failure kind, error alone or alongside the last bytes) x word count x language; enumerated: every failure point k in 0..4n/3-1 for n in {12,15,18,21,24} x 15 failure kinds (io.EOF, io.ErrUnexpectedEOF, a custom error, EINTR, EAGAIN, *os.PathError, a missing /dev/urandom (fs.ErrNotExist), ENOSYS (errors.ErrUnsupported), Temporary()/Timeout() errors, os.ErrDeadlineExceeded, io.ErrNoProgress, io.ErrShortBuffer, io.ErrClosedPipe, wrapped EOF; sticky: the source keeps failing) x {alone, alongside} plus plain end of data, each under several fragmentations (one read, 1-byte reads, halves, (k-1)+1, 1+(k-1), zero-length reads interleaved, seeded random compositions); stalls (k bytes, then 64..1000 consecutive (0, nil) reads, then the remaining bytes: polling on or giving up with an error are both admitted, a mnemonic of the partly filled buffer is not); successes under the same fragmentations incl. zero-leading data, and with a garbage collection (finalizers included) completing between the fragments; histories over one source that stays installed, fails transiently and works again; goroutines calling at the same time on one shared source, each call judged by the reads its own goroutine made; all cases non-trivial (the result is compared with the reference encoding of the delivered prefix, or must be (\"\", non-nil error)); distinct by (data, script, n, language)",
